@@ -36,7 +36,11 @@ def hassh_event(kex, origin):
 
 
 def fp_event(key, origin):
-    ab = wire_ssh.cert_abs(key) if type(key).__name__.startswith('SshHostCertificate') else wire_ssh.key_abs(key)
+    try:
+        ab = wire_ssh.cert_abs(key) if type(key).__name__.startswith('SshHostCertificate') else wire_ssh.key_abs(key)
+    except Exception as e:  # pylint: disable=broad-except
+        # reading the fields of a key the library itself built or parsed (its own blob, the blob of its signature key) failed
+        return {'ev': 'fpfail', 'error': type(e).__name__, 'origin': origin, 'cls': type(key).__name__, 'kind': 'none'}
     if ab is None:
         return None
     kind, a = ab
@@ -138,7 +142,7 @@ def run(rep):
     events += wire_fp_events(rep, thorough)
     events = [e for e in events if e]
     for e in events:
-        if e['ev'] != 'wirefp':
+        if e['ev'] not in ('wirefp', 'fpfail'):
             rep.case(digest(e.get('wire') or e.get('key_bytes')))
     rep.extra['kexinit_cases'] = sum(1 for e in events if e['ev'] == 'hassh')
     rep.extra['key_cases'] = sum(1 for e in events if e['ev'] == 'fp')
@@ -162,6 +166,8 @@ def run(rep):
             rep.violation('SshKeyExchangeInit|%s|hassh' % clause, 'KEXINIT: %s [%s]' % (clause, e['origin']),
                           {'wire_hex': bytes(e['wire']).hex()[:800], 'hassh': e['hassh'], 'hassh_server': e['hassh_server'],
                            'preimage_client': bytes(e['pre_client']).decode('latin-1')})
+        elif e['ev'] == 'fpfail':
+            rep.violation('%s|%s|%s' % (e['cls'], clause, e['error']), '%s: %s (%s) [%s]' % (e['cls'], clause, e['error'], e['origin']), e)
         else:
             site = 'fingerprints'
             if e['kind'].startswith('cert_') and clause == 'key-blob-is-not-rfc4253-encoding' and \
